@@ -42,7 +42,8 @@ class CHECK(Check):
             "one a proper prefix of the other; (c) foreign right-hand sides (number, None, string, list, an element, "
             "a file of another family). Also: the same register content read twice gives equal files and equal files "
             "write identical output. non-trivial = the two sequences differ in at most one position or are prefix-related; "
-            "distinct = case hash")
+            "distinct = case hash"
+            " Later additions: register elements use the library's own Register.__eq__; half of the cases apply sequence-preserving operations (remove a non-member, remove twice and re-append, append+remove) before comparing; delimited register types in the read-twice part.")
     not_exhibited = ["foreign right-hand sides and read-twice/write-equal are checked by the direct oracle only "
                      "(the model covers container-vs-container comparison)"]
 
